@@ -202,6 +202,8 @@ class Ctx:
             t = self.typeof(e[1])
             if tkind(t) in ('Vec', 'It', 'Ptr', 'Arr'):
                 return self.strip_ref(tparam(t))
+            if (self.strip_ref(t), 'operator[]') in self.struct_methods:
+                return self.struct_methods[(self.strip_ref(t), 'operator[]')].ret
             return '?'
         if k == 'un':
             t = self.typeof(e[2])
@@ -311,6 +313,8 @@ class Ctx:
                 return self.funcs[n].ret
             if n in self.env and self.strip_ref(self.env[n]) in self.callops:
                 return self.callops[self.strip_ref(self.env[n])].ret
+            if n in self.fields and self.strip_ref(self.fields[n]) in self.callops:
+                return self.callops[self.strip_ref(self.fields[n])].ret
             full = n + ('<' + f[2] + '>' if f[2] else '')
             t = self.itype(full)
             if t in SCALARS or t in self.structs or n in self.typemap or full in self.typemap:
@@ -541,6 +545,12 @@ class Ctx:
             if tkind(t) == 'Vec':
                 self.fire('vec_index')
                 return '%s.data[%s]' % (self.em_paren(b), self.em(e[2]))
+            st = self.strip_ref(t)
+            if (st, 'operator[]') in self.struct_methods:
+                fi = self.struct_methods[(st, 'operator[]')]
+                self.fire('index_operator')
+                self.count_call(fi.cname)
+                return '%s(%s, %s)' % (fi.cname, self.em_addr(b), self.em(e[2]))
             return '%s[%s]' % (self.em_paren(b), self.em(e[2]))
         if k == 'un':
             op, x = e[1], e[2]
@@ -731,12 +741,13 @@ class Ctx:
                 self.count_call(lam['cname'])
                 caps = [('&' + c if tkind(self.env.get(c, '')) != 'Ref' else c) if c != self.selfname else c for c in lam['caps']]
                 return '%s(%s)' % (lam['cname'], ', '.join(caps + [self.em(x) for x in a]))
-            if n in self.env:
-                t = self.strip_ref(self.env[n])
+            if n in self.env or (n in self.fields and self.strip_ref(self.fields[n]) in self.callops):
+                t = self.strip_ref(self.env[n]) if n in self.env else self.strip_ref(self.fields[n])
                 if t in self.callops:
+                    fi = self.callops[t]
                     self.fire('call_operator')
-                    self.count_call(self.callops[t].cname)
-                    return '%s(%s)' % (self.callops[t].cname, ', '.join([self.em_addr(f)] + [self.em(x) for x in a]))
+                    self.count_call(fi.cname)
+                    return '%s(%s)' % (fi.cname, ', '.join([self.em_addr(f)] + [self.em_arg(x, fi.params[i_] if fi.params and i_ < len(fi.params) else None) for i_, x in enumerate(a)]))
                 if t.startswith('Fn:'):
                     # callback parameter (in/out functors): rendered by the unit's binding
                     self.fire('callback')
@@ -746,9 +757,11 @@ class Ctx:
             if n in self.methods:
                 fi = self.methods[n]
                 self.fire('method_call')
+                pre_args = []
                 if targs and getattr(fi, 'targs_as_args', False):
-                    a = [('lit', x.strip()) if x.strip() in ('true', 'false') else ('id', x.strip(), None) for x in split_targs(targs)] + list(a)
-                    a = [('lit', '1') if (x[0] == 'lit' and x[1] == 'true') else ('lit', '0') if (x[0] == 'lit' and x[1] == 'false') else x for x in a]
+                    for x in split_targs(targs):
+                        x = x.strip()
+                        pre_args.append('1' if x == 'true' else '0' if x == 'false' else self.em(('id', x, None)))
                 if fi.as_base:
                     return '((size_t)0)'
                 self.count_call(fi.cname)
@@ -757,7 +770,7 @@ class Ctx:
                     if i_ in fi.lead_base:
                         args.append(self.need_base(x))
                     args.append(self.em_arg(x, fi.params[i_] if fi.params and i_ < len(fi.params) else None))
-                s = '%s(%s)' % (fi.cname, ', '.join(([] if fi.static else [self.selfname]) + args))
+                s = '%s(%s)' % (fi.cname, ', '.join(([] if fi.static else [self.selfname]) + pre_args + args))
                 return '(*%s)' % s if fi.ref else s
             if n in self.funcs:
                 fi = self.funcs[n]
@@ -772,10 +785,20 @@ class Ctx:
             if t in self.structs:
                 # T(a, b) value construction of a plain struct
                 ctor = self.struct_methods.get((t, t))
+                if len(a) == 0:
+                    self.fire('struct_default_value')
+                    return '(%s){0}' % self.ctype(t)
                 if ctor is not None:
                     self.fire('ctor_call')
                     self.count_call(ctor.cname)
-                    return '%s(%s)' % (ctor.cname, self.em_args(a))
+                    args = []
+                    for i_, x in enumerate(a):
+                        if i_ in ctor.lead_base:
+                            args.append(self.need_base(x))
+                        args.append(self.em(x))
+                    return '%s(%s)' % (ctor.cname, ', '.join(args))
+                if any(tkind(self.typeof(x)) == 'It' for x in a):
+                    raise ExtractionBreak('construction of %s from iterators has no registered constructor' % t)
                 self.fire('struct_value_ctor')
                 return '(%s){%s}' % (self.ctype(t), self.em_args(a))
             raise ExtractionBreak('call of unknown function %s' % n)
